@@ -46,12 +46,15 @@ PURE_METHODS = {
     tuple: {"index", "count"},
     set: {"add", "discard", "union", "copy"},
 }
-PURE_FUNCS = {"re.escape": _re.escape}
+import struct as _struct
+PURE_FUNCS = {"re.escape": _re.escape, "struct.unpack": _struct.unpack, "struct.pack": _struct.pack, "struct.calcsize": _struct.calcsize,
+              "int.from_bytes": int.from_bytes}
 EXC_NAMES = {"ValueError", "TypeError", "KeyError", "IndexError", "Exception", "RuntimeError", "NotImplementedError", "AttributeError"}
 
 
 class MiniEval(object):
-    def __init__(self, repo, folder, fi, symbolic=(), max_steps=20000):
+    def __init__(self, repo, folder, fi, symbolic=(), max_steps=20000, self_attrs=None):
+        self.self_attrs = dict(self_attrs or {})      # constant instance attributes of the receiver (self.buf = b"...")
         self.repo = repo
         self.folder = folder
         self.fi = fi
@@ -343,6 +346,8 @@ class MiniEval(object):
         if isinstance(e, ast.Attribute):
             if norm(e) in PURE_FUNCS:
                 return ("<fn>", norm(e))
+            if isinstance(e.value, ast.Name) and env.get(e.value.id) == ("<self>",) and e.attr in self.self_attrs:
+                return self.self_attrs[e.attr]
             try:
                 return self.const_attr(e, env)
             except Undecided:
@@ -361,7 +366,12 @@ class MiniEval(object):
         if fn in self.symbolic:
             return ("<sym>", fn, tuple(args), tuple(sorted(kwargs.items())))
         if fn in PURE_FUNCS:
-            return PURE_FUNCS[fn](*args, **kwargs)
+            try:
+                return PURE_FUNCS[fn](*args, **kwargs)
+            except _struct.error:
+                raise Raised("struct.error", ())
+            except (TypeError, ValueError, OverflowError) as ex:
+                raise Raised(type(ex).__name__, ())
         if isinstance(e.func, ast.Name) and e.func.id in PURE_BUILTINS and e.func.id not in env:
             try:
                 r = PURE_BUILTINS[e.func.id](*args, **kwargs)
